@@ -24,7 +24,7 @@ func TestMain(m *testing.M) { vkit.Main(m) }
 // box is the common surface of the containers under test.
 type box struct {
 	kind     string
-	capacity int // 0: unlimited
+	capacity int                        // 0: unlimited
 	add      func(end int, v int) error // end 0: back, 1: front (deque)
 	pop      func(end int) (int, bool)
 	waitPop  func(ctx context.Context, end int) (int, error)
@@ -123,23 +123,23 @@ type Act struct {
 
 // Case is one generated scenario.
 type Case struct {
-	Kind      string `json:"kind"`
-	Capacity  int    `json:"capacity"`  // 0: unlimited
-	Role      string `json:"role"`      // consumers | producers
-	Waiters   int    `json:"waiters"`
-	Ends      []int  `json:"ends"`      // per waiter: the end it waits on (deque)
-	Prefill   int    `json:"prefill"`   // consumers: items already present when the waiters start
-	WaitPark  bool   `json:"wait_park"` // let every waiter park before the script starts
-	Procs     int    `json:"gomaxprocs"`
-	Script    []Act  `json:"script"`
+	Kind     string `json:"kind"`
+	Capacity int    `json:"capacity"` // 0: unlimited
+	Role     string `json:"role"`     // consumers | producers
+	Waiters  int    `json:"waiters"`
+	Ends     []int  `json:"ends"`      // per waiter: the end it waits on (deque)
+	Prefill  int    `json:"prefill"`   // consumers: items already present when the waiters start
+	WaitPark bool   `json:"wait_park"` // let every waiter park before the script starts
+	Procs    int    `json:"gomaxprocs"`
+	Script   []Act  `json:"script"`
 }
 
 type waiter struct {
-	ctx     context.Context
-	cancel  context.CancelFunc
-	done    atomic.Bool
-	v       int
-	err     error
+	ctx       context.Context
+	cancel    context.CancelFunc
+	done      atomic.Bool
+	v         int
+	err       error
 	cancelled atomic.Bool
 }
 
@@ -317,47 +317,59 @@ func runCase(c *Case) (string, string) {
 			return k, why
 		}
 	}
-	// conservation at the end: nothing lost, duplicated or invented
-	seen := map[int]bool{}
-	got := 0
-	completed := 0
-	for i, w := range ws {
-		if !w.done.Load() {
-			continue
+	// conservation at the end: nothing lost, duplicated or invented.  A
+	// waiter whose operation has already taken effect in the container
+	// may not have stored its done flag yet, so the balance is polled
+	// like every other observation at quiescence (§3.3): it is a
+	// violation only if it never adds up.
+	conservation := func() (string, string) {
+		seen := map[int]bool{}
+		got := 0
+		completed := 0
+		for i, w := range ws {
+			if !w.done.Load() {
+				continue
+			}
+			switch {
+			case w.err == nil && c.Role == "consumers":
+				if !added[w.v] {
+					return "value", fmt.Sprintf("waiter %d received %d, which was never added", i, w.v)
+				}
+				if seen[w.v] {
+					return "value", fmt.Sprintf("value %d was received twice", w.v)
+				}
+				seen[w.v] = true
+				got++
+			case w.err == nil:
+				completed++
+			case errors.Is(w.err, pubsub.ErrQueueClosed):
+				if !closed {
+					return "result", fmt.Sprintf("waiter %d returned ErrQueueClosed but the container was never closed", i)
+				}
+			case errors.Is(w.err, context.Canceled):
+				if !w.cancelled.Load() {
+					return "result", fmt.Sprintf("waiter %d returned a context error but its context is live", i)
+				}
+			default:
+				return "result", fmt.Sprintf("waiter %d returned the unexpected error %v", i, w.err)
+			}
 		}
-		switch {
-		case w.err == nil && c.Role == "consumers":
-			if !added[w.v] {
-				return "value", fmt.Sprintf("waiter %d received %d, which was never added", i, w.v)
+		for k := range added {
+			if k < 0 {
+				return "value", fmt.Sprintf("the harness popped %d, which was never added", -k)
 			}
-			if seen[w.v] {
-				return "value", fmt.Sprintf("value %d was received twice", w.v)
-			}
-			seen[w.v] = true
-			got++
-		case w.err == nil:
-			completed++
-		case errors.Is(w.err, pubsub.ErrQueueClosed):
-			if !closed {
-				return "result", fmt.Sprintf("waiter %d returned ErrQueueClosed but the container was never closed", i)
-			}
-		case errors.Is(w.err, context.Canceled):
-			if !w.cancelled.Load() {
-				return "result", fmt.Sprintf("waiter %d returned a context error but its context is live", i)
-			}
-		default:
-			return "result", fmt.Sprintf("waiter %d returned the unexpected error %v", i, w.err)
 		}
+		if c.Kind != "deque-distributor-nonblocking" {
+			if want := totalAdded + completed - got - pops; b.length() != want {
+				return "conservation", fmt.Sprintf("Len()=%d at the end; %d added + %d blocked producers completed - %d received - %d popped = %d", b.length(), totalAdded, completed, got, pops, want)
+			}
+		}
+		return "", ""
 	}
-	for k := range added {
-		if k < 0 {
-			return "value", fmt.Sprintf("the harness popped %d, which was never added", -k)
-		}
-	}
-	if c.Kind != "deque-distributor-nonblocking" {
-		if want := totalAdded + completed - got - pops; b.length() != want {
-			return "conservation", fmt.Sprintf("Len()=%d at the end; %d added + %d blocked producers completed - %d received - %d popped = %d", b.length(), totalAdded, completed, got, pops, want)
-		}
+	var ckey, cwhy string
+	vkit.Eventually(limit, func() bool { ckey, cwhy = conservation(); return cwhy == "" })
+	if cwhy != "" {
+		return ckey, cwhy
 	}
 	return "", ""
 }
@@ -471,11 +483,11 @@ func TestWakeups(t *testing.T) {
 const tHook = "TestCancelInParkWindow"
 
 type hookCase struct {
-	Kind     string `json:"kind"`
-	Role     string `json:"role"`
-	End      int    `json:"end"`
-	Others   int    `json:"others"` // further waiters parked beforehand
-	Procs    int    `json:"gomaxprocs"`
+	Kind   string `json:"kind"`
+	Role   string `json:"role"`
+	End    int    `json:"end"`
+	Others int    `json:"others"` // further waiters parked beforehand
+	Procs  int    `json:"gomaxprocs"`
 }
 
 func runHook(c *hookCase) string {
